@@ -8,6 +8,7 @@ from __future__ import annotations
 import ast
 import builtins
 import operator
+import os
 import time
 import types
 
@@ -115,6 +116,14 @@ class BoundModel:
 
     def __call__(self, *a, **k):
         return self.fn(current(), self.selfv, *a, **k)
+
+
+def _has_sym(v, depth=0):
+    if is_sym(v):
+        return True
+    if depth < 3 and isinstance(v, (tuple, list)):
+        return any(_has_sym(x, depth + 1) for x in v)
+    return False
 
 
 class Frame:
@@ -560,6 +569,11 @@ class Exec:
             return getattr(obj, name)
         except SymLeak:
             raise
+        except AttributeError as e:
+            if getattr(type(obj), "_pyvc_model", False):
+                # a gap of the ghost model is not behaviour of the code under verification
+                raise Unsupported(f"the model {type(obj).__name__} of the environment has no attribute '{name}'")
+            raise PyRaise(e)
         except Exception as e:
             raise PyRaise(e)
 
@@ -771,16 +785,40 @@ class Exec:
 
     def compare(self, op, a, b):
         from . import models
-        if isinstance(op, ast.Is):
-            return a is b
-        if isinstance(op, ast.IsNot):
-            return a is not b
+        if isinstance(op, (ast.Is, ast.IsNot)):
+            # a symbolic bool stands for one of the singletons True / False
+            sb, other = (a, b) if isinstance(a, SBool) else ((b, a) if isinstance(b, SBool) else (None, None))
+            if sb is not None and isinstance(other, bool):
+                t = sb.t if other else z3.Not(sb.t)
+                return mk_bool(t if isinstance(op, ast.Is) else z3.Not(t))
+            if sb is not None and isinstance(other, SBool):
+                t = sb.t == other.t
+                return mk_bool(t if isinstance(op, ast.Is) else z3.Not(t))
+            return (a is b) if isinstance(op, ast.Is) else (a is not b)
         if isinstance(op, ast.In):
             return models.contains(self, b, a)
         if isinstance(op, ast.NotIn):
             r = models.contains(self, b, a)
             return (not r) if isinstance(r, bool) else mk_bool(z3.Not(r.t))
         a, b = self.lower(a), self.lower(b)
+        if isinstance(a, (tuple, list)) and isinstance(b, (tuple, list)) and (_has_sym(a) or _has_sym(b)):
+            # sequences with symbolic members: element-wise (python's own == would compare the wrappers by identity)
+            if not isinstance(op, (ast.Eq, ast.NotEq)):
+                raise Unsupported("ordering comparison of sequences with symbolic members")
+            if type(a) is not type(b) or len(a) != len(b):
+                return isinstance(op, ast.NotEq)
+            conj = []
+            for x, y in zip(a, b):
+                r = self.compare(ast.Eq(), x, y)
+                if isinstance(r, bool):
+                    if not r:
+                        return isinstance(op, ast.NotEq)
+                else:
+                    conj.append(r.t)
+            if not conj:
+                return isinstance(op, ast.Eq)
+            t = z3.And(*conj)
+            return mk_bool(t if isinstance(op, ast.Eq) else z3.Not(t))
         if not is_sym(a) and not is_sym(b):
             try:
                 return _CMPOPS[type(op)](a, b)
@@ -1158,12 +1196,22 @@ class Exec:
     def undo_container(self, obj, key, had, old):
         self.undo.append((_ItemUndo(obj, key), None, had, old))
 
+    def undo_container_snapshot(self, obj):
+        """restore a pre-existing container that native code is about to mutate"""
+        self.undo.append((_SnapUndo(obj, obj.copy()), "restore", True, None))
+
     @staticmethod
-    def _append_only(stmts):
+    def _append_only(stmts, temps=None):
+        """the statements only append to lists (possibly under nested ifs), apart from assignments to plain local
+        names, which are collected in `temps` (the caller checks that they are not used outside the if)"""
         for st in stmts:
             if isinstance(st, ast.If):
-                if st.orelse or not Exec._append_only(st.body):
+                if st.orelse or not Exec._append_only(st.body, temps):
                     return False
+                continue
+            if (temps is not None and isinstance(st, ast.Assign) and len(st.targets) == 1
+                    and isinstance(st.targets[0], ast.Name)):
+                temps.add(st.targets[0].id)
                 continue
             if not (isinstance(st, ast.Expr) and isinstance(st.value, ast.Call)
                     and isinstance(st.value.func, ast.Attribute) and st.value.func.attr == "append"
@@ -1172,29 +1220,63 @@ class Exec:
                 return False
         return bool(stmts)
 
+    @staticmethod
+    def _temps_local_to(node, temps, fr):
+        """every name in `temps` occurs only inside `node` within the enclosing function (so its value is dead after
+        the if and nothing before the if flows into it)"""
+        if not temps:
+            return True
+        if fr.info is None or isinstance(fr.info.node, ast.Lambda):
+            return False
+        inside = {id(n) for n in ast.walk(node)}
+        for n in ast.walk(fr.info.node):
+            if id(n) in inside:
+                continue
+            if isinstance(n, ast.Name) and n.id in temps:
+                return False
+            if isinstance(n, ast.arg) and n.arg in temps:
+                return False
+            if isinstance(n, (ast.Global, ast.Nonlocal)) and set(n.names) & temps:
+                return False
+        return True
+
     def _guarded_appends(self, stmts, guard, fr):
         from .models import Guarded
         for st in stmts:
-            if isinstance(st, ast.If):
-                t = self.truth_value(self.eval(st.test, fr))
-                if isinstance(t, bool):
-                    if t:
-                        self._guarded_appends(st.body, guard, fr)
-                    continue
-                self._guarded_appends(st.body, z3.And(guard, t.t), fr)
-            else:
-                lst = self.lookup(st.value.func.value.id, fr)
-                if not isinstance(lst, list):
-                    raise Unsupported("guarded append to a non-list")
-                lst.append(Guarded(z3.simplify(guard), self.eval(st.value.args[0], fr)))
+            try:
+                if isinstance(st, ast.If):
+                    t = self.truth_value(self.eval(st.test, fr))
+                    if isinstance(t, bool):
+                        if t:
+                            self._guarded_appends(st.body, guard, fr)
+                        continue
+                    self._guarded_appends(st.body, z3.And(guard, t.t), fr)
+                elif isinstance(st, ast.Assign):
+                    self.assign(st.targets[0], self.eval(st.value, fr), fr)
+                else:
+                    lst = self.lookup(st.value.func.value.id, fr)
+                    if not isinstance(lst, list):
+                        raise Unsupported("guarded append to a non-list")
+                    lst.append(Guarded(z3.simplify(guard), self.eval(st.value.args[0], fr)))
+            except PyRaise:
+                # the statement is only executed when the guard holds: the exception is real on those paths; where
+                # the guard is false the rest of this block is skipped (what was appended so far carries the guard)
+                if self.branch(guard, tag=f"ifconv.raise@{st.lineno}"):
+                    raise
+                return
 
     def s_If(self, node, fr):
         c = self.eval(node.test, fr)
-        if not node.orelse and self._append_only(node.body):
+        temps = set()
+        if not node.orelse and self._append_only(node.body, temps) and self._temps_local_to(node, temps, fr):
             t = self.truth_value(c)
             if not isinstance(t, bool):
-                # if-conversion: the body only appends to lists, so no fork is needed
-                return self._guarded_appends(node.body, t.t, fr)
+                # if-conversion: the body only appends to lists (and sets temporaries that are dead after the if), so
+                # no fork is needed
+                self._guarded_appends(node.body, t.t, fr)
+                for name in temps:
+                    fr.env.vars.pop(name, None)
+                return
         if self.truth(c, tag=f"if@{node.lineno}"):
             self.exec_block(node.body, fr)
         else:
@@ -1343,6 +1425,23 @@ class Exec:
         self.exec_block(node.orelse, fr)
 
 
+class _SnapUndo:
+    def __init__(self, obj, snap):
+        object.__setattr__(self, "obj", obj)
+        object.__setattr__(self, "snap", snap)
+
+    def __setattr__(self, name, value):
+        o, snap = self.obj, self.snap
+        if isinstance(o, dict):
+            o.clear()
+            o.update(snap)
+        elif isinstance(o, list):
+            o[:] = snap
+        elif isinstance(o, set):
+            o.clear()
+            o.update(snap)
+
+
 class _ItemUndo:
     """adapter so that container item stores share the attribute undo log"""
 
@@ -1380,10 +1479,14 @@ def explore(world, body, unit, contracts=None, max_paths=20000, timeout_ms=SOLVE
     global _CUR
     work = [[]]
     results = []
+    t_start = time.time()
+    max_wall = float(os.environ.get("PYVC_UNIT_WALL_S", "900"))
     while work:
         prefix = work.pop()
         if len(results) >= max_paths:
             raise Budget(f"more than {max_paths} paths in {unit}")
+        if time.time() - t_start > max_wall:
+            raise Budget(f"more than {max_wall:.0f} s spent on {len(results)} paths of {unit} (PYVC_UNIT_WALL_S)")
         ex = Exec(world, prefix, unit, contracts, timeout_ms)
         if setup:
             setup(ex)
